@@ -43,3 +43,11 @@ def run(ck):
             ck.validate_trace("Trace_Layout", "Trace_Layout.cfg", tr, "curve/trace-" + fl, n_traces=1, n_events=s.get("events", 0))
             ck.sample({"trace_event": [l for l in open(tr).read().splitlines() if "hwalk" in l][:1]})
     ck.bound("hilbert_k_traced", 8 if ck.quick else 10)
+    # "stores coordinate c at flat position p": the storage block itself, for fields built by conversion in both directions
+    lcases = lc.run_layout_mc(ck, sizing_only=True)
+    bins = lc.layout_binaries(ck, ["asan"])
+    for b in bins.get("asan", []):
+        rc, out, err = ck.run([b, "replay", lcases], timeout=1500)
+        s = ck.harness_output("storage-position-replay", rc, out, err, only="storage-position")
+        ck.cov["cases_replayed"] += s.get("cases", 0)
+        ck.cov["impl_checks"] += s.get("checks", 0)
